@@ -86,7 +86,29 @@ def base64 : Bytes → Bytes
     b64c (a.toNat / 4) :: b64c (a.toNat % 4 * 16 + b.toNat / 16) :: b64c (b.toNat % 16 * 4 + c.toNat / 64) ::
       b64c (c.toNat % 64) :: base64 rest
 
-def quote (b : Bytes) : Bytes := 0x22 :: b ++ [0x22]
+def hexLow (n : Nat) : UInt8 := if n < 10 then UInt8.ofNat (48 + n) else UInt8.ofNat (87 + n)
+
+/-- `\u00XX` -/
+def uEsc (c : UInt8) : Bytes := [0x5c, 0x75, 0x30, 0x30, hexLow (c.toNat / 16), hexLow (c.toNat % 16)]
+
+/-- JSON string escaping as Go's `encoding/json` does it (HTML-safe mode, which amino-JSON and `MustSortJSON`
+use): `"` and `\` are backslash-escaped, `\n \r \t` have short forms, other control characters and `< > &`
+become `\u00XX`, U+2028/U+2029 become `\u2028/\u2029`; every other byte of a valid UTF-8 string is copied.
+(Bytes that are not valid UTF-8 become U+FFFD — finding F17 — and are not rendered by this function.) -/
+def jsonEscape : Bytes → Bytes
+  | [] => []
+  | 0xe2 :: 0x80 :: 0xa8 :: rest => [0x5c, 0x75, 0x32, 0x30, 0x32, 0x38] ++ jsonEscape rest
+  | 0xe2 :: 0x80 :: 0xa9 :: rest => [0x5c, 0x75, 0x32, 0x30, 0x32, 0x39] ++ jsonEscape rest
+  | c :: rest =>
+    (if c = 0x22 then [0x5c, 0x22]
+     else if c = 0x5c then [0x5c, 0x5c]
+     else if c = 0x0a then [0x5c, 0x6e]
+     else if c = 0x0d then [0x5c, 0x72]
+     else if c = 0x09 then [0x5c, 0x74]
+     else if c.toNat < 0x20 ∨ c = 0x3c ∨ c = 0x3e ∨ c = 0x26 then uEsc c
+     else [c]) ++ jsonEscape rest
+
+def quote (b : Bytes) : Bytes := 0x22 :: jsonEscape b ++ [0x22]
 
 def renderFields (fs : List (Bytes × Bytes)) : Bytes :=
   0x7b :: (((fs.map fun e => quote e.1 ++ 0x3a :: quote e.2).intersperse [0x2c]).flatten ++ [0x7d])
